@@ -18,6 +18,16 @@ CHECKS = {
          "The ordered id list and the total count returned through five routes are compared for equality with the list the property prescribes (sort keys each asc/desc, nulls first ascending, id tie-break, max(skip,0) dropped, limit absent/negative/none = unbounded). Boundary classes of skip and limit are generated explicitly and their frequencies reported. Sampling over datasets of <= 8 rows.",
          "Trusts kit/refsort.go and the reference predicate evaluator; predicates with rows of unspecified answer are skipped; <= 5 sort keys.",
          "DESIGN.md §3 C02"),
+ "C17": (True, "exploration",
+         "property-based testing (rapid) of snapshot/restore histories with a whole-file dump-equality oracle, plus generated concurrent reader/writer/restore workloads under the race detector with a single-generation invariant",
+         "Sequential cases split a generated history at a drawn point, snapshot (three ways), continue, restore (two ways) and require: dump after restore == dump at snapshot time modulo the two markers, stores show the model of that time, GetSnapshotId equals the returned id, every restore listener fires once, the first timeline request gets a fresh id exactly once, and the post-snapshot transactions replayed on the restored database have the same outcomes. Concurrent cases run readers that verify one generation across entities, indexes and queries inside each read transaction while a writer bumps generations and restores happen; built with -race.",
+         "Interleavings are sampled by the Go scheduler. Snapshots are never taken concurrently with a restore (possible recursive-read-lock deadlock is a liveness matter outside this check).",
+         "DESIGN.md §3 C17"),
+ "C18": (True, "exploration",
+         "generated concurrent workloads (rapid) under the Go race detector; oracle = version-tagged snapshot invariant + reference query answers per version + any race report is a violation",
+         "Each workload runs 2-8 readers, 0-4 helper-hammering goroutines and one writer whose every transaction moves the whole database to the next version; inside each read transaction entities, unique index, set index, both link sides and drawn queries (parsed concurrently) must all show the same version and equal the serial answer for it; helper results (error classification, parse, symbol resolution, public-symbol validation) are checked; the binary is built with -race.",
+         "Interleavings are sampled, not enumerated; a race needing a specific preemption point can be missed.",
+         "DESIGN.md §3 C18"),
  "C19": (True, "exploration",
          "property-based differential testing (rapid): the same generated query is answered by objectz.ObjectStore and by a bolt store holding the same values",
          "Literal differential the property states: ids, order and count (or error/no error) must agree for every generated collection x predicate over non-set symbols x sort x skip/limit, including = null / != null, negative skip, skip without limit, limit none, limit 0 and skip past the end. The object store is iterated in reverse insertion order.",
